@@ -186,6 +186,205 @@ theorem witness_noParent :
     (match resolveOne { defaultSchema := "public", schemas := [] } [] [] [] [] none wRefNoParent with
      | .ok ps => ps.length | .error _ => 99) = 0 := by decide
 
+/-! ### findParameters records every placeholder the tree walk reaches
+
+`C03_found_all`: for every tree in which (a) a ParamRef has no walked children and (b) no ResTarget carries a
+MultiAssignRef value (the one case in which Visit deliberately skips a placeholder), the location of every
+ParamRef node of `walk root` is in `(findParameters root).seen` — it was either recorded by the ParamRef arm or
+bound to an INSERT column by the InsertStmt arm. Nothing is lost BEFORE resolution; what is lost later is lost
+by resolveCatalogRefs (the recorded findings noParent / funcArgNested). Proved by mutual structural recursion
+over the tree, its field lists and its item lists. -/
+
+def locOf (n : Node) : Int := (n.get "Location").intVal
+
+/-- the only skip in Visit: a ResTarget whose value is a MultiAssignRef -/
+def skipsMulti (p : Node) : Bool := p.isKind "ResTarget" && (p.get "Val").isKind "MultiAssignRef"
+
+def goodParent : Parent → Prop
+  | .node p => skipsMulti p = false
+  | _ => True
+
+theorem paramSet_good (parent : Parent) (num : Nat) (h : goodParent parent) : paramSet parent num = true := by
+  unfold paramSet
+  cases parent with
+  | node p =>
+    simp only [goodParent, skipsMulti] at h
+    simp only [h, Bool.false_eq_true, if_false]
+  | none => rfl
+  | limitCount => rfl
+  | limitOffset => rfl
+
+theorem effectiveParent_good (d : PDown) (num : Nat) (h : goodParent d.parent) : goodParent (effectiveParent d num) := by
+  unfold effectiveParent
+  simp only
+  split
+  · trivial
+  · split
+    · trivial
+    · exact h
+
+theorem paramArm_seen (d : PDown) (n : Node) (acc : PAcc) (hd : goodParent d.parent) :
+    locOf n ∈ (paramArm d n acc).seen ∧ ∀ l ∈ acc.seen, l ∈ (paramArm d n acc).seen := by
+  unfold paramArm
+  simp only
+  by_cases hs : acc.seen.contains (n.get "Location").intVal = true
+  · rw [if_pos hs]
+    exact ⟨by simpa [locOf] using hs, fun l hl => hl⟩
+  · rw [if_neg hs, if_pos (paramSet_good _ _ (effectiveParent_good d _ hd))]
+    exact ⟨by simp [locOf], fun l hl => by simp [hl]⟩
+
+theorem insertStep_seen_mono (cols : Node) (rv : Option Node) (u : Bool) (acc : PAcc) (it : Node × Nat) :
+    ∀ l ∈ acc.seen, l ∈ (insertStep cols rv u acc it).seen := by
+  intro l hl
+  unfold insertStep
+  by_cases h1 : acc.panic.isSome = true
+  · rw [if_pos h1]; exact hl
+  · rw [if_neg h1]
+    simp only
+    by_cases h2 : (!(if u then (if it.1.isKind "ResTarget" then it.1.get "Val" else Node.null) else it.1).isKind "ParamRef") = true
+    · rw [if_pos h2]; exact hl
+    · rw [if_neg h2]
+      cases colItem cols it.2 with
+      | none => exact hl
+      | some c => simp [hl]
+
+theorem foldl_insertStep_mono (cols : Node) (rv : Option Node) (u : Bool) :
+    ∀ (items : List (Node × Nat)) (acc : PAcc), ∀ l ∈ acc.seen, l ∈ (items.foldl (insertStep cols rv u) acc).seen := by
+  intro items
+  induction items with
+  | nil => intro acc l hl; exact hl
+  | cons it rest ih => intro acc l hl; exact ih _ l (insertStep_seen_mono cols rv u acc it l hl)
+
+theorem insertArm_seen_mono (n : Node) (acc : PAcc) : ∀ l ∈ acc.seen, l ∈ (insertArm n acc).seen := by
+  intro l hl
+  unfold insertArm
+  simp only
+  split
+  · exact hl
+  · split
+    · exact hl
+    · split
+      · exact foldl_insertStep_mono _ _ _ _ _ l hl
+      · have h1 := foldl_insertStep_mono (n.get "Cols") (let r := n.get "Relation"; if r.isNull then none else some r) true
+          ((n.get "SelectStmt").get "TargetList").items.zipIdx acc l hl
+        -- the VALUES rows: a fold of folds
+        have : ∀ (rows : List Node) (a : PAcc), l ∈ a.seen →
+            l ∈ (rows.foldl (fun acc row => if row.isKind "List" then
+                insertAddRefs (n.get "Cols") (let r := n.get "Relation"; if r.isNull then none else some r) acc row.items false else acc) a).seen := by
+          intro rows
+          induction rows with
+          | nil => intro a ha; exact ha
+          | cons row rest ih =>
+            intro a ha
+            simp only [List.foldl_cons]
+            apply ih
+            split
+            · exact foldl_insertStep_mono _ _ _ _ _ l ha
+            · exact ha
+        exact this _ _ h1
+
+/-! ### the walk -/
+
+/-- the hypotheses on the tree: every ResTarget in it is free of MultiAssignRef values, and a ParamRef has no
+walked children (true of every tree the engines' converters build) -/
+def GoodNode (n : Node) : Prop := skipsMulti n = false ∧ (n.isKind "ParamRef" → Node.walkFields n.fields = [])
+
+theorem visitDown_good (d : PDown) (n : Node) (hd : goodParent d.parent) (hn : skipsMulti n = false) :
+    goodParent (visitDown d n).parent := by
+  unfold visitDown
+  split
+  all_goals first
+    | exact hn
+    | exact hd
+    | (simp only []; split <;> (try split) <;> exact hd)
+
+mutual
+theorem findP_all : ∀ (n : Node) (d : PDown) (acc : PAcc), goodParent d.parent → (∀ m ∈ n.walk, GoodNode m) →
+    (∀ l ∈ acc.seen, l ∈ (findP d n acc).seen) ∧
+    (∀ m ∈ n.walk, m.isKind "ParamRef" → locOf m ∈ (findP d n acc).seen)
+  | .nd k fs, d, acc, hd, hg => by
+    unfold findP
+    simp only
+    by_cases hk : (k == "ParamRef") = true
+    · rw [if_pos hk]
+      have hp := paramArm_seen d (.nd k fs) acc hd
+      refine ⟨hp.2, ?_⟩
+      intro m hm hmk
+      -- the node itself is the only walked ParamRef below it
+      have hleaf : Node.walkFields fs = [] := (hg (.nd k fs) (by simp [Node.walk])).2 (by simpa [Node.isKind, Node.kind] using hk)
+      simp only [Node.walk, hleaf, List.mem_cons, List.not_mem_nil, or_false] at hm
+      rw [hm]; exact hp.1
+    · rw [if_neg hk]
+      have hself : GoodNode (.nd k fs) := hg _ (by simp [Node.walk])
+      have hd' := visitDown_good d (.nd k fs) hd hself.1
+      have hrec := findPFields_all fs (visitDown d (.nd k fs)) (if k == "InsertStmt" then insertArm (.nd k fs) acc else acc) hd'
+        (fun m hm => hg m (by simp [Node.walk, hm]))
+      refine ⟨?_, ?_⟩
+      · intro l hl
+        apply hrec.1
+        split
+        · exact insertArm_seen_mono _ _ l hl
+        · exact hl
+      · intro m hm hmk
+        simp only [Node.walk, List.mem_cons] at hm
+        rcases hm with hm | hm
+        · rw [hm] at hmk
+          exact absurd (by simpa [Node.isKind, Node.kind] using hmk) hk
+        · exact hrec.2 m hm hmk
+  | .list is, d, acc, hd, hg => by
+    unfold findP
+    have hrec := findPItems_all is d acc hd (fun m hm => hg m (by simp [Node.walk, hm]))
+    refine ⟨hrec.1, ?_⟩
+    intro m hm hmk
+    simp only [Node.walk, List.mem_cons] at hm
+    rcases hm with hm | hm
+    · rw [hm] at hmk; simp [Node.isKind, Node.kind] at hmk
+    · exact hrec.2 m hm hmk
+  | .str _, _, acc, _, _ => by unfold findP; exact ⟨fun l hl => hl, fun m hm => by simp [Node.walk] at hm⟩
+  | .num _, _, acc, _, _ => by unfold findP; exact ⟨fun l hl => hl, fun m hm => by simp [Node.walk] at hm⟩
+  | .bool _, _, acc, _, _ => by unfold findP; exact ⟨fun l hl => hl, fun m hm => by simp [Node.walk] at hm⟩
+  | .null, _, acc, _, _ => by unfold findP; exact ⟨fun l hl => hl, fun m hm => by simp [Node.walk] at hm⟩
+theorem findPFields_all : ∀ (fs : List (String × Bool × Node)) (d : PDown) (acc : PAcc), goodParent d.parent →
+    (∀ m ∈ Node.walkFields fs, GoodNode m) →
+    (∀ l ∈ acc.seen, l ∈ (findPFields d fs acc).seen) ∧
+    (∀ m ∈ Node.walkFields fs, m.isKind "ParamRef" → locOf m ∈ (findPFields d fs acc).seen)
+  | [], _, acc, _, _ => by unfold findPFields; exact ⟨fun l hl => hl, fun m hm => by simp [Node.walkFields] at hm⟩
+  | (_, true, c) :: rest, d, acc, hd, hg => by
+    unfold findPFields
+    have h1 := findP_all c d acc hd (fun m hm => hg m (by simp [Node.walkFields, hm]))
+    have h2 := findPFields_all rest d (findP d c acc) hd (fun m hm => hg m (by simp [Node.walkFields, hm]))
+    refine ⟨fun l hl => h2.1 l (h1.1 l hl), ?_⟩
+    intro m hm hmk
+    simp only [Node.walkFields, List.mem_append] at hm
+    rcases hm with hm | hm
+    · exact h2.1 _ (h1.2 m hm hmk)
+    · exact h2.2 m hm hmk
+  | (_, false, _) :: rest, d, acc, hd, hg => by
+    unfold findPFields
+    exact findPFields_all rest d acc hd (fun m hm => hg m (by simp [Node.walkFields, hm]))
+theorem findPItems_all : ∀ (is : List Node) (d : PDown) (acc : PAcc), goodParent d.parent →
+    (∀ m ∈ Node.walkItems is, GoodNode m) →
+    (∀ l ∈ acc.seen, l ∈ (findPItems d is acc).seen) ∧
+    (∀ m ∈ Node.walkItems is, m.isKind "ParamRef" → locOf m ∈ (findPItems d is acc).seen)
+  | [], _, acc, _, _ => by unfold findPItems; exact ⟨fun l hl => hl, fun m hm => by simp [Node.walkItems] at hm⟩
+  | c :: rest, d, acc, hd, hg => by
+    unfold findPItems
+    have h1 := findP_all c d acc hd (fun m hm => hg m (by simp [Node.walkItems, hm]))
+    have h2 := findPItems_all rest d (findP d c acc) hd (fun m hm => hg m (by simp [Node.walkItems, hm]))
+    refine ⟨fun l hl => h2.1 l (h1.1 l hl), ?_⟩
+    intro m hm hmk
+    simp only [Node.walkItems, List.mem_append] at hm
+    rcases hm with hm | hm
+    · exact h2.1 _ (h1.2 m hm hmk)
+    · exact h2.2 m hm hmk
+end
+
+/-- every placeholder the walk reaches is recorded (its location is in `seen`) -/
+theorem C03_found_all (root : Node) (hg : ∀ m ∈ root.walk, GoodNode m) :
+    ∀ m ∈ root.walk, m.isKind "ParamRef" → locOf m ∈ (findParameters root).seen := by
+  unfold findParameters
+  exact (findP_all root {} {} trivial hg).2
+
 theorem translator_complete : Gen.untranslatable = [] := by decide
 
 end Sqlc.C03
